@@ -63,6 +63,10 @@ TYPES = {
     "vcf": ("bionumpy.datatypes.VCFWithInfoAsStringEntry", "bionumpy.io.vcf_buffers.VCFWithInfoAsStringBuffer", ".vcf",
             [("chromosome", "id"), ("position", "pos"), ("id", "str"), ("ref_seq", "str"), ("alt_seq", "str"), ("quality", "str"),
              ("filter", "str"), ("info", "str")]),
+    # the general VCF entry type with its INFO column given as text (what an eager read of a file without ##INFO lines holds)
+    "vcfentry": ("bionumpy.datatypes.VCFEntry", "bionumpy.io.vcf_buffers.VCFBuffer", ".vcf",
+                 [("chromosome", "id"), ("position", "pos"), ("id", "str"), ("ref_seq", "str"), ("alt_seq", "str"), ("quality", "str"),
+                  ("filter", "str"), ("info", "str")]),
 }
 COMMENT = {"sam": "@"}
 
